@@ -37,7 +37,9 @@ def _shift_pairs(ctx, rng, count):
                                max_n=ctx.scale(8, 16), max_m=ctx.scale(6, 12))
         n = B.shape[0]
         costs, ck = gen.gen_costs(rng, n, B, kind=rng.choice(["positive", "negative", "mixed"]))
-        t = rng.choice([-64, -3, -0.5, 0.25, 2, 8, 1024])
+        if idx % 3 == 0:
+            costs = np.round(costs * 4) / 1024          # small differences, so that a large shift dwarfs them
+        t = rng.choice([-64, -3, -0.5, 0.25, 2, 8, 1024, 1200, 65536, -4096])
         c1 = OptCase(B, "ccqr", costs=costs, meta={"mk": mk, "ck": ck})
         c2 = OptCase(B, "ccqr", costs=costs + t, meta={"mk": mk, "ck": ck, "shift": t})
         ctx.evaluations += 1
@@ -111,6 +113,11 @@ def run(ctx: C.Ctx):
         B, mk = gen.gen_matrix(rng, kind=mk, max_n=ctx.scale(9, 20), max_m=ctx.scale(7, 14))
         n = B.shape[0]
         costs, ck = gen.gen_costs(rng, n, B)
+        if idx % 8 == 0:
+            # equal residual norms + a large common price with small differences: the differences decide
+            B, mk = gen.gen_matrix(rng, kind=rng.choice(["ties", "dup_rows", "ties"]), max_n=ctx.scale(9, 20), max_m=ctx.scale(7, 14))
+            n = B.shape[0]
+            costs, ck = gen.gen_costs(rng, n, B, kind="offset_small_spread")
         case = OptCase(B, "ccqr", costs=costs, meta={"mk": mk, "ck": ck})
         ctx.evaluations += 1
         ctx.count("matrix:" + mk)
